@@ -561,7 +561,7 @@ func (e *Engine) doIndexAddr(st *State, in *ssa.IndexAddr) {
 		}
 		e.safety(st, "index", in, fmt.Sprintf("(and (<= 0 %s) (< %s (slen %s)))", i.T, i.T, x.T))
 		et := xt.Elem()
-		idx := fmt.Sprintf("(+ (soff %s) %s)", x.T, i.T)
+		idx := fmt.Sprintf("(sidx %s %s)", x.T, i.T)
 		if isStruct(et) {
 			e.setReg(st, in, term(e.mkERef(st, et, app("sarr", x.T), idx), SRef, in.Type()))
 			return
@@ -717,7 +717,10 @@ func (e *Engine) makeIface(st *State, x Val, from types.Type, to types.Type) Val
 	box, unbox, id := e.ifaceBox(from)
 	r := app(box, x.T)
 	e.fact(st, "box:"+r, fmt.Sprintf("(and (= (%s %s) %s) (= (ityp %s) %d) (not (= %s inil)))", unbox, r, x.T, r, id, r))
-	return term(r, SIface, to)
+	res := term(r, SIface, to)
+	bx := x
+	res.Box = &bx
+	return res
 }
 
 func (e *Engine) doTypeAssert(st *State, in *ssa.TypeAssert) {
